@@ -36,11 +36,11 @@ fn plan_c30(seed: u64, tier: &str) -> Plan {
         Op::CreateParticipant { p: 0, domain: 0, tag: String::new(), announce_ms: r.range(50, 1000), q: Q::default(), l: None },
         Op::CreateTopic { p: 0, id: 0, name: "T".into(), ty: Ty::Keyed, q: Q::default(), l: None },
         Op::CreatePublisher { p: 0, id: 0, q: Q::default(), l: None },
-        Op::CreateWriter { id: 0, publisher: 0, topic: 0, q: Q { reliable: Some(true), history: Some(0), mbt_ms: Some(-1), deadline_ns: Some(d), ..Default::default() }, l: Some(L { mask: vec![1] }) },
+        Op::CreateWriter { id: 0, publisher: 0, topic: 0, q: Q { reliable: Some(true), history: Some(0), mbt_ms: Some(-1), deadline_ns: Some(d), ..Default::default() }, l: Some(L { mask: vec![1], nil: false }) },
         Op::CreateParticipant { p: 1, domain: 0, tag: String::new(), announce_ms: r.range(50, 1000), q: Q::default(), l: None },
         Op::CreateTopic { p: 1, id: 0, name: "T".into(), ty: Ty::Keyed, q: Q::default(), l: None },
         Op::CreateSubscriber { p: 1, id: 1, q: Q::default(), l: None },
-        Op::CreateReader { id: 0, subscriber: 1, topic: 0, q: Q { reliable: Some(true), history: Some(0), deadline_ns: Some(d), ..Default::default() }, l: Some(L { mask: vec![2] }) },
+        Op::CreateReader { id: 0, subscriber: 1, topic: 0, q: Q { reliable: Some(true), history: Some(0), deadline_ns: Some(d), ..Default::default() }, l: Some(L { mask: vec![2], nil: false }) },
         Op::WaitMatched { kind: "writer".into(), id: 0, n: 1, timeout_ms: 30_000 },
         Op::WaitMatched { kind: "reader".into(), id: 0, n: 1, timeout_ms: 30_000 },
         Op::Sleep { us: 200_000 },
